@@ -7,7 +7,7 @@ import ast
 from .facts import const_int, facts_of, scalar_ctor
 from .flow import Arr, ArrSlice, Bytes, Num, Opaque, Tup, Walker, c_not, conjuncts, show_cond
 from .lin import Lin, show_lin
-from .model import AnalysisError, call_name, dotted, self_attr, unparse, walk_no_nested
+from .model import AnalysisError, call_name, dotted, resolve_temps, self_attr, unparse, walk_no_nested
 from .rules_arith import SUMMARIES, agg, fact_strs, group_by_node, on_path, src
 
 HLL = ("hyperloglog", "HyperLogLog")
@@ -230,8 +230,11 @@ def nlz_function(F):
     k = hll_kernels(F)["add"]
     cands = [c.callee for c in F.calls_from(k) if c.callee.is_kernel and c.callee.name != "fasthash64"
              and c.callee.module.short == "hyperloglog"]
+    cands = [c for c in cands if len(c.params) == 1 and c.rtype is not None and c.rtype.kind == "uint" and c.rtype.bits == 8] or cands
+    cands = list({c.key: c for c in cands}.values())
     if len(cands) != 1:
         raise AnalysisError("leading-zero helper of %s not identified (%d candidates)" % (k.key, len(cands)))
+    F.extra_units.add(cands[0].name)
     return cands[0]
 
 
@@ -454,7 +457,7 @@ def rule_bits(ctx):
     for p in range(P_MIN, P_MAX + 1):
         sm = dict(SUMMARIES)
         sm[nlzf.name] = nlz_summary_for(p)
-        w = Walker(F.model, k, consts={pp: p, mp: 1 << p}, effects=F.effects, summaries=sm)
+        w = Walker(F.model, k, consts={pp: p, mp: 1 << p}, effects=F.effects, summaries=sm, no_inline=frozenset(F.units()))
         w.run()
         ctx.analysed_funcs.add(k.key)
         stores = [e for e in w.events if e.kind == "store" and e.arr.name == reg]
@@ -576,26 +579,44 @@ def _single_return(func):
     return rets[0] if len(rets) == 1 else None
 
 
-def rule_forms(ctx):
-    F = facts_of(ctx)
+def hll_query_helpers(F):
+    """(linear counting, raw estimate) helpers of the query kernel: LC takes scalars only, EST takes the uint8 registers.  Both are
+    registered as units (their calls stay opaque); any other helper of the query kernel is walked inline."""
     q = hll_kernels(F)["query"]
     callees = {c.callee.name: c.callee for c in F.calls_from(q) if c.callee.is_kernel}
-    w = F.walk(q, summaries=SUMMARIES)
-    # identify LC and EST by their argument lists
     lc = est = None
     for name, f in callees.items():
-        if any(t.is_array for t in f.ptypes.values()):
-            est = f
-        else:
-            lc = f
+        tys = list(f.ptypes.values())
+        if any(t is not None and t.is_array and t.kind == "uint" and t.bits == 8 for t in tys):
+            est = f if est is None else est
+        elif not any(t is not None and t.is_array for t in tys) and len(f.params) == 2 and \
+                any(isinstance(n, ast.Call) and (dotted(n.func) or "").split(".")[-1] == "log" for n in ast.walk(f.node)):
+            lc = f if lc is None else lc
     if lc is None or est is None:
         raise AnalysisError("%s: linear-counting / estimation helpers not identified" % q.key)
+    F.extra_units.update([lc.name, est.name])
+    return q, lc, est
+
+
+def _hll_units(F):
+    q, lc, est = hll_query_helpers(F)
+    return {lc.name, est.name, nlz_function(F).name}
+
+
+from .facts import UNIT_RESOLVERS
+UNIT_RESOLVERS.append(_hll_units)
+
+
+def rule_forms(ctx):
+    F = facts_of(ctx)
+    q, lc, est = hll_query_helpers(F)
+    w = F.walk(q, summaries=SUMMARIES)
     ctx.analysed_funcs.update([lc.key, est.key])
     # LC: m * log(m / n_zero)
     r = _single_return(lc)
     m_, z_ = lc.params[0], lc.params[1]
     want = parse_nf("%s * log(%s / %s)" % (m_, m_, z_))
-    okk = r is not None and nf(r.value) == want
+    okk = r is not None and nf(resolve_temps(lc.node, r.value)) == want
     ctx.ob("forms", lc, r or lc.node, "%s: return %s" % (lc.name, unparse(r.value) if r else "?"), "linear counting is m * ln(m / V)", okk,
            "" if okk else "normal form differs from m*log(m/n_zero)")
     # call site passes (m, n_zero)
@@ -612,23 +633,38 @@ def rule_forms(ctx):
     for n in walk_no_nested(est.node):
         if isinstance(n, ast.For):
             body = [s for s in n.body if not (isinstance(s, ast.Expr) and isinstance(s.value, ast.Constant))]
-            it_ok = isinstance(n.iter, ast.Name) and n.iter.id == regs and isinstance(n.target, ast.Name)
-            if it_ok and len(body) == 1 and isinstance(body[0], ast.AugAssign) and isinstance(body[0].op, ast.Add) and isinstance(body[0].target, ast.Name):
-                acc = body[0].target.id
-                term = nf(body[0].value)
-                okloop = term == parse_nf("2.0 ** (-%s)" % n.target.id)
-            elif isinstance(n.iter, ast.Call) and dotted(n.iter.func) == "range" and len(n.iter.args) == 1 and unparse(n.iter.args[0]) == mpar \
-                    and len(body) == 1 and isinstance(body[0], ast.AugAssign) and isinstance(body[0].op, ast.Add):
-                acc = body[0].target.id
-                okloop = nf(body[0].value) == parse_nf("2.0 ** (-%s[%s])" % (regs, n.target.id))
+            if len(body) != 1 or not isinstance(n.target, ast.Name):
+                continue
+            b0 = body[0]
+            # acc += term | acc = acc + term | acc = term + acc
+            term = None
+            if isinstance(b0, ast.AugAssign) and isinstance(b0.op, ast.Add) and isinstance(b0.target, ast.Name):
+                acc, term = b0.target.id, b0.value
+            elif isinstance(b0, ast.Assign) and len(b0.targets) == 1 and isinstance(b0.targets[0], ast.Name) and isinstance(b0.value, ast.BinOp) \
+                    and isinstance(b0.value.op, ast.Add):
+                a_ = b0.targets[0].id
+                if isinstance(b0.value.left, ast.Name) and b0.value.left.id == a_:
+                    acc, term = a_, b0.value.right
+                elif isinstance(b0.value.right, ast.Name) and b0.value.right.id == a_:
+                    acc, term = a_, b0.value.left
+            if term is None:
+                continue
+            it = n.iter
+            if isinstance(it, ast.Name) and it.id == regs:
+                okloop = nf(term) == parse_nf("2.0 ** (-%s)" % n.target.id)
+            elif isinstance(it, ast.Call) and dotted(it.func) == "range" and len(it.args) == 1 and \
+                    unparse(it.args[0]) in (mpar, "len(%s)" % regs):
+                # range(m): m is the number of registers (bind rule); range(len(registers)) is every register by construction
+                okloop = nf(term) == parse_nf("2.0 ** (-%s[%s])" % (regs, n.target.id))
     ctx.ob("forms", est, est.node, "%s: for r in registers: total += 2**-r" % est.name, "the harmonic sum runs over every register with terms 2^-r", okloop)
     init_ok = False
     for n in walk_no_nested(est.node):
-        if isinstance(n, ast.Assign) and isinstance(n.targets[0], ast.Name) and n.targets[0].id == acc:
+        if isinstance(n, ast.Assign) and isinstance(n.targets[0], ast.Name) and n.targets[0].id == acc and not \
+                (isinstance(n.value, ast.BinOp) and any(isinstance(x, ast.Name) and x.id == acc for x in ast.walk(n.value))):
             init_ok = nf(n.value) == ("c", 0.0)
     ctx.ob("forms", est, est.node, "%s: total = 0" % est.name, "the harmonic sum starts at zero", init_ok)
     want = parse_nf("%s * %s * %s / %s" % (apar, mpar, mpar, acc or "total"))
-    got = nf(r.value) if r is not None else None
+    got = nf(resolve_temps(est.node, r.value)) if r is not None else None
     # accept alpha*(m*m)/total with either association of the division
     alt = parse_nf("%s * (%s * %s) / %s" % (apar, mpar, mpar, acc or "total"))
     okk = got is not None and (got == want or got == alt or _div_nf(got) == _div_nf(want))
